@@ -118,7 +118,8 @@ def gen_case(rnd, spec):
         elif k < 0.72:
             ops.append(["incr", rnd.randint(1, 12)])
         elif k < 0.84:
-            ops.append(["supply", gen_value(rnd, rnd.random() < 0.6)])
+            # a pool may also report that it can provide without limit (or owes without limit)
+            ops.append(["supply", rnd.choice(["inf", "inf", "-inf"]) if rnd.random() < 0.06 else gen_value(rnd, rnd.random() < 0.6)])
         elif k < 0.94:
             ops.append(["outside", gen_value(rnd, int_world)])
         else:
@@ -160,8 +161,8 @@ class Ref:
 
     def limited(self, v, supply):
         v, s = F(v), F(supply)
-        lo = add(s, -self.backlog if self.backlog != INF else -INF)
-        hi = add(s, self.surplus)
+        lo = -INF if self.backlog == INF else add(s, -self.backlog)  # no backlog limit: no lower edge, whatever the supply
+        hi = INF if self.surplus == INF else add(s, self.surplus)
         return clamp(self.min, clamp(lo, v, hi), self.max)
 
     def floored(self, v):
@@ -303,7 +304,9 @@ def execute(case, result):
                 if std.demand != twin.demand:
                     bad("read-back differs: %r vs %r" % (std.demand, twin.demand))
         elif kind == "supply":
-            pool.poke(supply=op[1])
+            pool.poke(supply=float(op[1]) if isinstance(op[1], str) else op[1])
+            if isinstance(op[1], str):
+                result.count("states_with_infinite_supply")
         elif kind == "outside":
             pool.poke(demand=op[1])
         elif kind == "fitness":
@@ -416,6 +419,6 @@ def run_shard(spec):
 
 
 def finish(total, tier):
-    for needed in ("writes_limited", "cases_built_as_Limiter", "cases_built_as_Coarser", "writes_unlimited", "writes_floored", "increment_runs_checked", "ctor_rejected", "ctor_accepted", "fractional_granularity_writes"):
+    for needed in ("writes_limited", "states_with_infinite_supply", "cases_built_as_Limiter", "cases_built_as_Coarser", "writes_unlimited", "writes_floored", "increment_runs_checked", "ctor_rejected", "ctor_accepted", "fractional_granularity_writes"):
         if not total.counters.get(needed) and not total.violations:
             total.inconc("monitor never observed: " + needed)
